@@ -257,6 +257,7 @@ func runC13(r *Run) error {
 	r.Res.Rule = "random directed graphs on 1-3 inputs, 0-2 bias, 0-5 hidden, 1-2 outputs (edge probability 0.15-0.45 into every neuron, self-loops allowed), " +
 		"forced self-loop / 2-cycle / 3-cycle families, time-delayed links, links into sensors, shuffled node order; per solver a random history of 0-6 operations, " +
 		"Flush, then 1-6 operations, compared with the same operations on a fresh instance; non-trivial = the graph is not feed-forward; distinct by network and operations"
+	c13DirectSolvers(r)
 	var inputs []c12Input
 	fams := []string{"random", "self-loop", "2-cycle", "3-cycle", "time-delayed", "into-sensors", "feed-forward-ish"}
 	n := r.N(300, 4000)
@@ -296,6 +297,7 @@ func runC13(r *Run) error {
 		inShard++
 	}
 	cf.Close("c13_mismatches")
+	c13mCases(r) // modular networks: harness/c13_mod.go
 	return nil
 }
 
